@@ -21,8 +21,8 @@ theorem mem_insertBy {le : Nat → Nat → Bool} {a x : Nat} {l : List Nat} : x 
       · rintro (h | h | h) <;> simp [h]
       · rintro (h | h | h) <;> simp [h]
 
-theorem mem_sortNat {x : Nat} {l : List Nat} : x ∈ sortNat l ↔ x ∈ l := by
-  unfold sortNat sortBy
+theorem mem_sortNat0 {x : Nat} {l : List Nat} : x ∈ sortNat0 l ↔ x ∈ l := by
+  unfold sortNat0 sortBy
   induction l with
   | nil => simp
   | cons a l ih => simp only [List.foldr_cons, mem_insertBy, ih, List.mem_cons]
@@ -52,13 +52,31 @@ theorem pairwise_insertBy {a : Nat} {l : List Nat} (hl : l.Pairwise (· < ·)) (
       · omega
       · exact hy.1 z hz
 
-theorem sortNat_strict {l : List Nat} (h : nodupNat l = true) : (sortNat l).Pairwise (· < ·) := by
+theorem sortNat0_strict {l : List Nat} (h : nodupNat l = true) : (sortNat0 l).Pairwise (· < ·) := by
   induction l with
-  | nil => simp [sortNat, sortBy]
+  | nil => simp [sortNat0, sortBy]
   | cons a l ih =>
     simp only [nodupNat, Bool.and_eq_true, Bool.not_eq_true', List.contains_eq_mem, decide_eq_false_iff_not] at h
-    have := pairwise_insertBy (a := a) (ih h.2) (by rw [mem_sortNat]; exact h.1)
-    simpa [sortNat, sortBy] using this
+    have := pairwise_insertBy (a := a) (ih h.2) (by rw [mem_sortNat0]; exact h.1)
+    simpa [sortNat0, sortBy] using this
+
+theorem dedupAdj_of_strict : ∀ (l : List Nat), l.Pairwise (· < ·) → dedupAdj l = l
+  | [], _ => rfl
+  | [_], _ => rfl
+  | x :: y :: rest, h => by
+    have hp := List.pairwise_cons.1 h
+    have hxy : x < y := hp.1 y (by simp)
+    have hne : (x == y) = false := by simp; omega
+    simp only [dedupAdj, hne, Bool.false_eq_true, if_false, dedupAdj_of_strict (y :: rest) hp.2]
+
+theorem sortNat_eq {l : List Nat} (h : nodupNat l = true) : sortNat l = sortNat0 l :=
+  dedupAdj_of_strict _ (sortNat0_strict h)
+
+theorem mem_sortNat {x : Nat} {l : List Nat} (h : nodupNat l = true) : x ∈ sortNat l ↔ x ∈ l := by
+  rw [sortNat_eq h]; exact mem_sortNat0
+
+theorem sortNat_strict {l : List Nat} (h : nodupNat l = true) : (sortNat l).Pairwise (· < ·) := by
+  rw [sortNat_eq h]; exact sortNat0_strict h
 
 theorem excludingAux_congr {ex ex' : List Nat} (h : ∀ x, x ∈ ex ↔ x ∈ ex') (i : Nat) (vs : Tuple) :
     excludingAux ex i vs = excludingAux ex' i vs := by
@@ -127,7 +145,7 @@ theorem excluding_reinsert_sorted (b : Tuple) : ∀ (ks : List Nat), ks.Pairwise
 theorem excluding_reinsert (b : Tuple) (rk : List Nat) (h : nodupNat rk = true) (j : Nat) :
     (excluding b rk)[j]? = b[reinsert (sortNat rk) j]? := by
   unfold excluding
-  rw [excludingAux_congr (ex' := sortNat rk) (fun x => (mem_sortNat).symm) 0 b]
+  rw [excludingAux_congr (ex' := sortNat rk) (fun x => (mem_sortNat h).symm) 0 b]
   exact excluding_reinsert_sorted b _ (sortNat_strict h) j
 
 end ILV.IR
